@@ -22,7 +22,6 @@ import (
 	"os"
 	"os/exec"
 	"reflect"
-	"runtime/pprof"
 	"slices"
 	"sort"
 	"strings"
@@ -378,18 +377,18 @@ type c15Worker struct {
 var c15Seq atomic.Int64
 
 type c15Run struct {
-	in   *C15Input
-	obs  *c15Obs
-	s    *node.Supervisor
-	tr   *c15Tracer
-	ctx  context.Context
-	mx   sync.Mutex
-	pend []*c15Pending
-	real map[string]*c15Worker // by any of its addresses
-	reals []*c15Worker
+	in       *C15Input
+	obs      *c15Obs
+	s        *node.Supervisor
+	tr       *c15Tracer
+	ctx      context.Context
+	mx       sync.Mutex
+	pend     []*c15Pending
+	real     map[string]*c15Worker // by any of its addresses
+	reals    []*c15Worker
 	killMode atomic.Int32 // 0 ok, 1 seam returns an error, 2 seam forgets WorkerKilled
 	unstable atomic.Int32
-	wmx   sync.Mutex
+	wmx      sync.Mutex
 }
 
 func (r *c15Run) quiet(max time.Duration) {
@@ -831,11 +830,6 @@ func c15ExecPool(in *C15Input) *c15Obs {
 // ---------------------------------------------------------------- child processes
 
 func c15Child() {
-	if pf := os.Getenv("C15_PROF"); pf != "" {
-		f, _ := os.Create(fmt.Sprintf("%s.%d", pf, os.Getpid()))
-		_ = pprof.StartCPUProfile(f)
-		defer pprof.StopCPUProfile()
-	}
 	dec := json.NewDecoder(os.Stdin)
 	enc := json.NewEncoder(os.Stdout)
 	for {
@@ -1340,9 +1334,9 @@ func runC15(c *Ctx) error {
 	}
 
 	jobs = nil
-	nPool := c.N(260, 6000)
-	nReal := c.N(24, 600)
-	nExp := c.N(300, 10000)
+	nPool := c.N(260, 4000)
+	nReal := c.N(24, 300)
+	nExp := c.N(300, 6000)
 	switch os.Getenv("C15_ONLY") { // debugging aid
 	case "pool":
 		nReal, nExp = 0, 0
